@@ -140,6 +140,8 @@ orc_parse_full (const char *code, OrcProgram ***programs, char **log)
     orc_parse_code (code, programs, &n_programs, &errors, &n_errors);
 
     orc_parse_splat_error (errors, n_errors, log);
+    if (n_errors > 0)
+      orc_parse_error_freev (errors);
   } else {
     orc_parse_code (code, programs, &n_programs, NULL, NULL);
   }
